@@ -27,6 +27,33 @@ const (
 	IteratorValueKind
 )
 
+func (self ValueKind) TypeKind() ast.TypeKind {
+	switch self {
+	case NullValueKind:
+		return ast.NullTypeKind
+	case IntValueKind:
+		return ast.IntTypeKind
+	case FloatValueKind:
+		return ast.FloatTypeKind
+	case BoolValueKind:
+		return ast.BoolTypeKind
+	case StringValueKind:
+		return ast.StringTypeKind
+	case AnyObjectValueKind:
+		return ast.AnyObjectTypeKind
+	case ObjectValueKind:
+		return ast.ObjectTypeKind
+	case OptionValueKind:
+		return ast.OptionTypeKind
+	case ListValueKind:
+		return ast.ListTypeKind
+	case RangeValueKind:
+		return ast.RangeTypeKind
+	default:
+		return ast.FnTypeKind
+	}
+}
+
 func (self ValueKind) String() string {
 	switch self {
 	case NullValueKind:
